@@ -56,6 +56,13 @@ def _images(ctx):
         if ts == JPEGLSLossless and (rows < 2 or cols < 2):
             rows, cols = rows + 1, cols + 1
         ot = r.choice(['basic', 'extended', 'none'])
+        # dimensions added later draw from their own stream so that the images of earlier runs stay the same
+        r2 = ctx.rng('img2', idx)
+        bs = bits
+        if bits in (8, 16) and ts != JPEGLSLossless and r2.random() < 0.3:
+            bs = r2.choice([bits - 1, bits - 4, 5])          # BitsStored < BitsAllocated, values inside the stored range
+        planar = 1 if (samples == 3 and ts in (ExplicitVRLittleEndian, ImplicitVRLittleEndian) and r2.random() < 0.4) else 0
+        drop_nof = nfr == 1 and r2.random() < 0.5              # single-frame image WITHOUT NumberOfFrames
         nr = ctx.np_rng('pix', idx)
         shape = (nfr, rows, cols) + ((3,) if samples == 3 else ())
         if bits == 1:
@@ -63,7 +70,7 @@ def _images(ctx):
             if r.random() < 0.15:
                 fr[r.randrange(nfr)] = False
         else:
-            lo, hi = (-(2 ** (bits - 1)), 2 ** (bits - 1) - 1) if signed else (0, 2 ** bits - 1)
+            lo, hi = (-(2 ** (bs - 1)), 2 ** (bs - 1) - 1) if signed else (0, 2 ** bs - 1)
             fr = nr.integers(lo, hi, size=shape, endpoint=True, dtype=np.int64)
             if ts == JPEGLSLossless:
                 # pyjpegls cannot encode pure noise of tiny images into its destination buffer
@@ -73,12 +80,17 @@ def _images(ctx):
                 fr.flat[0] = hi
                 fr.flat[-1] = lo
         try:
-            ds = multiframe_image(fr, bits, ts, signed=signed, offset_table=ot)
+            ds = multiframe_image(fr, bits, ts, signed=signed, offset_table=ot, planar=planar)
         except Exception as e:  # noqa: BLE001
             ctx.note(f'generator could not encode image {idx}: {type(e).__name__}: {e}'[:200])
             continue
+        if bs != bits:
+            ds.BitsStored, ds.HighBit = bs, bs - 1
+        if drop_nof:
+            del ds.NumberOfFrames
         yield {'idx': idx, 'bits': bits, 'samples': samples, 'frames': nfr, 'rows': rows, 'cols': cols,
-               'signed': signed, 'ts': ts.name, 'ot': ot}, ds, fr
+               'signed': signed, 'ts': ts.name, 'ot': ot, 'bits_stored': bs, 'planar': planar,
+               'number_of_frames_attr': not drop_nof}, ds, fr
 
 
 def _fetch(fn, *a, **k):
@@ -125,6 +137,13 @@ def _check_image(ctx, d, ds, fr, reqs, pending):
     if tmp_path is not None:
         paths['lazy-path'] = lambda: hd.imread(tmp_path, lazy_frame_retrieval=True)
         paths['eager-path'] = lambda: hd.imread(tmp_path)
+        # os.PathLike spelling of the path
+        import pathlib
+        paths['lazy-pathlike'] = lambda: hd.imread(pathlib.Path(tmp_path), lazy_frame_retrieval=True)
+    if d['idx'] % 3 == 1:
+        # the raw content of the file as `bytes` (imread documents bytes = file content, not a path)
+        paths['lazy-bytes'] = lambda: hd.imread(blob, lazy_frame_retrieval=True)
+        paths['eager-bytes'] = lambda: hd.imread(blob)
     imgs = {}
     for name, mk in paths.items():
         st, im = _fetch(mk)
@@ -148,7 +167,9 @@ def _check_image(ctx, d, ds, fr, reqs, pending):
                     nontriv = (d['bits'], (d['rows'] * d['cols']) % 8, n, name, d['ts'], idx)
                 ctx.case(sample=case if (inrange and ctx.evaluations % 97 == 0) else None, nontrivial_key=nontriv,
                          bits=d['bits'], path=name, syntax=d['ts'], residue=(d['rows'] * d['cols']) % 8,
-                         outcome=('ok' if st == 'ok' else val), inrange=inrange)
+                         outcome=('ok' if st == 'ok' else val), inrange=inrange,
+                         bits_stored=('full' if d.get('bits_stored', d['bits']) == d['bits'] else 'narrower'),
+                         planar=d.get('planar', 0), number_of_frames_attr=d.get('number_of_frames_attr', True))
                 # ---- oracle
                 if inrange:
                     if st != 'ok':
@@ -457,7 +478,8 @@ def _colour(ctx, reqs, pending):
         ds.NumberOfFrames = n
         ds.Rows, ds.Columns, ds.SamplesPerPixel = rows, cols, 3
         ds.PhotometricInterpretation = pi
-        ds.PlanarConfiguration = 0
+        planar = 1 if (pi != 'YBR_FULL_422' and ctx.rng('colour2', idx).random() < 0.4) else 0
+        ds.PlanarConfiguration = planar
         ds.BitsAllocated, ds.BitsStored, ds.HighBit, ds.PixelRepresentation = 8, 8, 7, 0
         bpp = 2 if pi == 'YBR_FULL_422' else 3
         raw = ctx.np_rng('colourpix', idx).integers(0, 256, size=n * rows * cols * bpp, dtype=np.uint8).tobytes()
@@ -470,7 +492,7 @@ def _colour(ctx, reqs, pending):
         except Exception as e:  # noqa: BLE001
             ctx.note(f'pydicom cannot decode colour image {pi}: {type(e).__name__}')
             continue
-        d = {'idx': idx, 'colour': pi, 'frames': n, 'rows': rows, 'cols': cols, 'ts': ts.name}
+        d = {'idx': idx, 'colour': pi, 'frames': n, 'rows': rows, 'cols': cols, 'ts': ts.name, 'planar': planar}
         flen = rows * cols * bpp
         for name, mk in (('memory', lambda: hd.Image.from_dataset(pydicom.dcmread(io.BytesIO(blob)), copy=False)),
                          ('eager', lambda: hd.imread(io.BytesIO(blob))),
@@ -482,7 +504,7 @@ def _colour(ctx, reqs, pending):
             for k in range(0, n + 2):
                 inrange = 1 <= k <= n
                 st, val = _fetch(im.get_stored_frame, k)
-                ctx.case(path=name + '/colour', photometric=pi, inrange=inrange,
+                ctx.case(path=name + '/colour', photometric=pi, inrange=inrange, planar=planar,
                          nontrivial_key=('colour', pi, n, name, k, rows * cols) if inrange else None)
                 case = {'image': d, 'path': name, 'k': k}
                 if inrange:
